@@ -180,7 +180,26 @@ EXTRA9 = {
  "C19": " The atomic shim mirrors the panics of atomic.Value (nil, inconsistently typed value); the read-write mutex shim holds new readers back while a writer waits.",
  "C20": " A level on the way (rolling-file logger with a level, logger-level layout in front of references with a level); with separate=true the line of an event at WARN or above is in the .wf file. Raw descriptor calls (syscall.Write ...) are part of the in-memory filesystem. Garbage collections as environment events on real files: a full collection with its finalizers after the k-th of 4 calls, every k, 5 file-writing kinds x 2 layouts.",
 }
-for e in (EXTRA, EXTRA5, EXTRA6, EXTRA7, EXTRA8, EXTRA9):
+# round 10
+EXTRA10 = {
+ "C01": " Layout / asynchronous kinds also with a logger range that contains NONE and the user levels above MAX; events at a level registered after the logger was started.",
+ "C02": " The list GetAllTags handed out is overwritten before Refresh; a non-root logger that cannot start: Refresh fails or routes as configured.",
+ "C03": " A 70 KB line next to a short one, compared as a STREAM (pieces of one line stay together); the first line is also held while 1500 further events are formatted.",
+ "C04": " Events at levels registered after Start.",
+ "C05": " Rolling scenarios with failing creations: what was accepted before Stop is readable after it.",
+ "C07": " Named scalar types with and without marshalling methods, json.Number; hostile strings as level name / file / tag / context string.",
+ "C08": " Paths with 2-, 3- and 4-byte characters x every length x width (the cut is by bytes).",
+ "C09": " Hostile strings in the header positions of the JSON layout (user-registered level name, file, tag, context string).",
+ "C10": " Calls WITHOUT own fields (3 shapes x 8 hook subsets x 4 paths); the overflowing call and a late call of the async scenario go through Debug / Trace with a counting generator.",
+ "C11": " Every pair of 64 (thorough 192) call sites, cold cache, fast mode, two goroutines (P<=2).",
+ "C12": " Every payload length 0..1100 and 2^k-1, 2^k, 2^k+1 (k = 11..16) through 4 logger kinds; handle identity for 9 spellings of a name.",
+ "C13": " 'Issued one at a time' judged per call; two writers followed by calls of the main thread; maximum ages around 2^31 seconds and 2^63 nanoseconds (keep for ever).",
+ "C14": " Maximum ages around 2^31 s / 2^63 ns; two appenders sharing a directory with different maximum ages; a relative log directory and a process that changes its working directory; removals judged by the clock at the removal.",
+ "C16": " A configuration WITHOUT a root logger as an operation of the state search.",
+ "C18": " Every comparison of GetAllTags with the registry is followed by overwriting the list received and asking again.",
+ "C20": " The built-in logger after a configuration without root has come and gone; the interval's file already holding an acknowledged line of an earlier life.",
+}
+for e in (EXTRA, EXTRA5, EXTRA6, EXTRA7, EXTRA8, EXTRA9, EXTRA10):
     for k, v in e.items():
         CHECKS[k]["text"] += v
 CHECKS["C15"]["note"] = CHECKS["C15"]["note"].replace("Trusted: the deviation table (expected defaults) in harness/enum/c15.go.", "Trusted: the deviation table in harness/enum/c15.go (expected defaults of integer/boolean/word attributes are read from the live plugin's struct tag, so a tree that declares other defaults is not an alarm).")
@@ -200,7 +219,7 @@ m = {
  "engines": [
   {"name": "zzvrt", "path": "vrt/", "serves_properties": ["C01","C03","C04","C05","C06","C10","C11","C12","C13","C14","C15","C19","C20"],
    "kind_free_text": "hand-written stateless model checker for Go: cooperative scheduler + preemption/deviation-bounded DFS over choice prefixes, shims for channels/select/sync/atomic/os/time, virtual clock and in-memory filesystem with fault and crash injection"},
-  {"name": "enum", "path": "harness/enum/", "serves_properties": ["C01","C02","C07","C08","C09","C10","C11","C12","C15","C16","C17","C18"],
+  {"name": "enum", "path": "harness/enum/", "serves_properties": ["C01","C02","C03","C07","C08","C09","C10","C11","C12","C15","C16","C17","C18","C20"],
    "kind_free_text": "bounded-exhaustive enumeration harness: complete enumeration of configurations / inputs / operation sequences within stated bounds on the real package (plus in-package accessors by overlay), compared with reference models written in Go"},
   {"name": "instrument", "path": "cmd/instrument", "serves_properties": ["C03","C04","C05","C06","C12","C13","C14","C19","C20"],
    "kind_free_text": "go/types-directed source-to-source instrumenter; output substituted by go build -overlay"},
